@@ -323,6 +323,33 @@ def _scalar_local(f, ob, off, n):
     return False
 
 
+def compared_constants(f, limit=1 << 16):
+    """integer constants the function compares something with (icmp operands, switch cases): candidates for special cases that a fixed
+    list of representative values would step over"""
+    out = set()
+    for I in f.insts:
+        if I.op == "icmp":
+            for o in I.ops:
+                if isinstance(o, (list, tuple)) and o and o[0] == "c":
+                    try:
+                        v = int(o[1])
+                    except (TypeError, ValueError):
+                        continue
+                    if 0 <= v < limit:
+                        out.add(v)
+        elif I.op == "switch":
+            for cs in (I.get("cases") or []):
+                v = cs[0] if isinstance(cs, (list, tuple)) else cs
+                try:
+                    v = int(v)
+                except (TypeError, ValueError):
+                    continue
+                if 0 <= v < limit:
+                    out.add(v)
+    return out
+
+
+
 def check_hkdf_small(ck_ob, mod, label, thorough=False):
     """tinyjambu_hkdf_expand as straight paths: buffer position x block counter in {0, 1, 2, 254, 255} x EVERY outlen up to a bound - position,
     counter and length concrete, data symbolic, HMAC uninterpreted.  Compared with the sequential reference: left-over bytes first, then
@@ -341,11 +368,19 @@ def check_hkdf_small(ck_ob, mod, label, thorough=False):
     oi = f.param_index("outlen")
     icells = lambda ob, off, n: (ob == ST and (off, n) in ((CNT, 1), (POSN, 1))) or _scalar_local(f, ob, off, n)
     posns = list(range(33)) if thorough else [0, 1, 15, 16, 31, 32]
+    # counter values: the ends of its range plus every constant the code compares anything with (and its neighbours): a special case at
+    # some counter value is a class of its own
+    cc_ = compared_constants(f)
+    counters = sorted({0, 1, 2, 254, 255} | {v_ % 256 for c_ in cc_ if c_ < 256 for v_ in (c_ - 1, c_, c_ + 1) if 0 <= v_ <= 256})
+    if len(counters) > 14:
+        counters = sorted({0, 1, 2, 254, 255} | {c_ for c_ in cc_ if c_ < 256})[:14]
+    if not thorough:
+        posns = sorted(set(posns) | {c_ for c_ in cc_ if c_ <= 32})
     bad = None
     npaths = 0
     for pz in posns:
         top = 100 if (thorough and pz in (0, 16, 31, 32)) or (not thorough) else 40
-        for c0 in (0, 1, 2, 254, 255):
+        for c0 in counters:
             for L in range(top + 1):
                 def setup(ex_, path, pz=pz, c0=c0):
                     path.lfmem[(ST, POSN, 1)] = Lf.c(pz)
@@ -857,6 +892,8 @@ def check_pbkdf2_small(ck_ob, mod, label, thorough=False):
     oi, ci = f.param_index("outlen"), f.param_index("count")
     top = 200 if thorough else 100
     counts = (0, 1, 2, 3, 4, 5, 9) if thorough else (0, 1, 2, 3, 5)
+    # ... plus every small constant the code compares anything with (a special case at some count is a class of its own)
+    counts = tuple(sorted(set(counts) | {v_ for c_ in compared_constants(f) if c_ <= 24 and c_ != 32 for v_ in (c_, c_ + 1)}))[:12]
     bad = None
     npaths = 0
     START = ("tinyjambu_hmac_init", "tinyjambu_hmac_reinit")
